@@ -36,16 +36,17 @@ pub enum Form {
     SetPDelete,
     SetPSetP,
     SetPRmP,
+    SetPEmpty,
 }
 
 pub const FORMS: &[Form] = &[
     Form::Nothing, Form::SetP, Form::SetQ, Form::RmP, Form::Delete, Form::CreateT2, Form::SetPSame, Form::RmQ, Form::DelCreate, Form::DelCreateSetP,
-    Form::SetPDelete, Form::SetPSetP, Form::SetPRmP,
+    Form::SetPDelete, Form::SetPSetP, Form::SetPRmP, Form::SetPEmpty,
 ];
 
 impl Form {
     fn simple(self) -> bool {
-        matches!(self, Form::Nothing | Form::SetP | Form::SetQ | Form::RmP | Form::Delete | Form::CreateT2 | Form::SetPSame | Form::RmQ)
+        matches!(self, Form::Nothing | Form::SetP | Form::SetQ | Form::RmP | Form::Delete | Form::CreateT2 | Form::SetPSame | Form::RmQ | Form::SetPEmpty)
     }
     fn deletes(self) -> bool {
         matches!(self, Form::Delete | Form::DelCreate | Form::DelCreateSetP | Form::SetPDelete)
@@ -63,9 +64,14 @@ fn val(r: usize, n: u32) -> String {
     format!("{}{}", (b'A' + r as u8) as char, n)
 }
 
+/// Timestamps are given in milliseconds after T0, so that instants inside one second exist.
+fn at_ms(ms: i64) -> chrono::DateTime<chrono::Utc> {
+    ts_ns(ms.div_euclid(1000), (ms.rem_euclid(1000) * 1_000_000) as u32)
+}
+
 fn suffix(form: Form, r: usize, tstamp: i64) -> Vec<AbsOp> {
     let t = t1();
-    let at = ts(tstamp);
+    let at = at_ms(tstamp);
     match form {
         Form::Nothing => vec![],
         Form::SetP => vec![AbsOp::Set(t, "p".into(), val(r, 1), at)],
@@ -75,11 +81,12 @@ fn suffix(form: Form, r: usize, tstamp: i64) -> Vec<AbsOp> {
         Form::Delete => vec![AbsOp::Delete(t)],
         Form::CreateT2 => vec![AbsOp::Create(t2()), AbsOp::Set(t2(), format!("own{r}"), val(r, 9), at)],
         Form::SetPSame => vec![AbsOp::Set(t, "p".into(), "S".into(), at)],
+        Form::SetPEmpty => vec![AbsOp::Set(t, "p".into(), String::new(), at)],
         Form::DelCreate => vec![AbsOp::Delete(t), AbsOp::Create(t)],
         Form::DelCreateSetP => vec![AbsOp::Delete(t), AbsOp::Create(t), AbsOp::Set(t, "p".into(), val(r, 1), at)],
         Form::SetPDelete => vec![AbsOp::Set(t, "p".into(), val(r, 1), at), AbsOp::Delete(t)],
-        Form::SetPSetP => vec![AbsOp::Set(t, "p".into(), val(r, 1), at), AbsOp::Set(t, "p".into(), val(r, 2), ts(tstamp + 1))],
-        Form::SetPRmP => vec![AbsOp::Set(t, "p".into(), val(r, 1), at), AbsOp::Remove(t, "p".into(), ts(tstamp + 1))],
+        Form::SetPSetP => vec![AbsOp::Set(t, "p".into(), val(r, 1), at), AbsOp::Set(t, "p".into(), val(r, 2), at_ms(tstamp + 1))],
+        Form::SetPRmP => vec![AbsOp::Set(t, "p".into(), val(r, 1), at), AbsOp::Remove(t, "p".into(), at_ms(tstamp + 1))],
     }
 }
 
@@ -166,6 +173,7 @@ fn t1_expect(sc: &Scenario) -> Option<BTreeMap<(Uuid, String), BTreeSet<Option<S
                 match (f, prop) {
                     (Form::SetP, "p") | (Form::SetQ, "q") => cands.push((sc.stamps[r], Some(val(r, 1)))),
                     (Form::SetPSame, "p") => cands.push((sc.stamps[r], Some("S".into()))),
+                    (Form::SetPEmpty, "p") => cands.push((sc.stamps[r], Some(String::new()))),
                     (Form::RmP, "p") | (Form::RmQ, "q") => cands.push((sc.stamps[r], None)),
                     _ => {}
                 }
@@ -262,7 +270,7 @@ pub fn judge(sc: &Scenario, tag: &str, index: u64, out: &mut CaseOut) {
     if !sc.forms.iter().any(|f| f.deletes()) {
         let touch = |f: Form| -> Vec<&'static str> {
             match f {
-                Form::SetP | Form::RmP | Form::SetPSame | Form::SetPSetP | Form::SetPRmP => vec!["p"],
+                Form::SetP | Form::RmP | Form::SetPSame | Form::SetPSetP | Form::SetPRmP | Form::SetPEmpty => vec!["p"],
                 Form::SetQ | Form::RmQ => vec!["q"],
                 _ => vec![],
             }
@@ -276,6 +284,7 @@ pub fn judge(sc: &Scenario, tag: &str, index: u64, out: &mut CaseOut) {
                 let want: Option<String> = match f {
                     Form::SetP | Form::SetQ => Some(val(r, 1)),
                     Form::SetPSame => Some("S".into()),
+                    Form::SetPEmpty => Some(String::new()),
                     Form::SetPSetP => Some(val(r, 2)),
                     _ => None,
                 };
@@ -313,9 +322,9 @@ pub fn judge(sc: &Scenario, tag: &str, index: u64, out: &mut CaseOut) {
 /// Regression corpus: F5 (tie) and F12 (equal values merged, later timestamp forgotten).
 fn corpus() -> Vec<Scenario> {
     vec![
-        Scenario { forms: vec![Form::SetP, Form::SetP], stamps: vec![50, 50], later: false },
-        Scenario { forms: vec![Form::SetP, Form::RmP, Form::RmP], stamps: vec![200, 100, 300], later: false },
-        Scenario { forms: vec![Form::SetP, Form::SetPSame, Form::SetPSame], stamps: vec![200, 100, 300], later: false },
+        Scenario { forms: vec![Form::SetP, Form::SetP], stamps: vec![50_000, 50_000], later: false },
+        Scenario { forms: vec![Form::SetP, Form::RmP, Form::RmP], stamps: vec![200_000, 100_000, 300_000], later: false },
+        Scenario { forms: vec![Form::SetP, Form::SetPSame, Form::SetPSame], stamps: vec![200_000, 100_000, 300_000], later: false },
     ]
 }
 
@@ -337,9 +346,9 @@ pub fn run(ctx: &Ctx) -> Outcome {
         });
     }
     if want("pairs-exhaustive") {
-        // forms^2 x timestamp relation {<,=,>} x later{no,yes}
+        // forms^2 x timestamp relation {<, =, >, earlier / later within the same second} x later{no,yes}
         let f = FORMS.len() as u64;
-        let total = f * f * 3 * 2;
+        let total = f * f * 5 * 2;
         let (lo, hi) = range(total);
         run_cases(&mut acc, "pairs-exhaustive", hi - lo, |i| {
             let i = i + lo;
@@ -348,17 +357,17 @@ pub fn run(ctx: &Ctx) -> Outcome {
             k /= f;
             let fb = FORMS[(k % f) as usize];
             k /= f;
-            let rel = k % 3;
-            k /= 3;
+            let rel = k % 5;
+            k /= 5;
             let later = k % 2 == 1;
-            let sc = Scenario { forms: vec![fa, fb], stamps: vec![200, [100, 200, 300][rel as usize]], later };
+            let sc = Scenario { forms: vec![fa, fb], stamps: vec![200_500, [100_000, 200_500, 300_000, 200_200, 200_700][rel as usize]], later };
             let mut out = CaseOut::new();
             out.evaluations = 0;
             judge(&sc, "pairs-exhaustive", i, &mut out);
             out
         });
         if only.is_none() && !acc.truncated {
-            acc.exhaustive_parts.push(format!("pairs: all {} form pairs x timestamp relation {{<,=,>}} x {{no later change, later change}} x both sync orders", f * f));
+            acc.exhaustive_parts.push(format!("pairs: all {} form pairs x timestamp relation {{<, =, >, same second earlier, same second later}} x {{no later change, later change}} x both sync orders", f * f));
         }
     }
     if want("triples-same-value") {
@@ -366,7 +375,7 @@ pub fn run(ctx: &Ctx) -> Outcome {
         let mut scs = vec![];
         for same in [Form::RmP, Form::SetPSame, Form::RmQ] {
             for other in [Form::SetP, Form::RmP, Form::SetPSame, Form::SetQ] {
-                for stamps in [[200, 100, 300], [200, 300, 100], [100, 200, 300], [300, 100, 200], [200, 200, 300], [200, 100, 100]] {
+                for stamps in [[200_000, 100_000, 300_000], [200_000, 300_000, 100_000], [100_000, 200_000, 300_000], [300_000, 100_000, 200_000], [200_000, 200_000, 300_000], [200_000, 100_000, 100_000], [200_500, 200_200, 200_700], [200_500, 200_700, 200_200]] {
                     scs.push(Scenario { forms: vec![other, same, same], stamps: stamps.to_vec(), later: false });
                 }
             }
@@ -386,7 +395,7 @@ pub fn run(ctx: &Ctx) -> Outcome {
             let mut rng = Rng::derive(seed, "c03-triples", i);
             let sc = Scenario {
                 forms: (0..3).map(|_| *rng.pick(FORMS)).collect(),
-                stamps: (0..3).map(|_| *rng.pick(&[100i64, 200, 300, 400])).collect(),
+                stamps: (0..3).map(|_| *rng.pick(&[100_000i64, 200_000, 200_200, 200_700, 300_000, 400_000])).collect(),
                 later: rng.chance(1, 3),
             };
             let mut out = CaseOut::new();
@@ -402,7 +411,7 @@ pub fn run(ctx: &Ctx) -> Outcome {
     }
     Outcome {
         level: "exploration",
-        rule: "scenario = common synced prefix + one concurrent suffix form per replica (13 forms: nothing, set p/q, remove p/q, delete, duplicate create of a second task, identical set, delete+create(+set), set+delete, set+set, set+remove) + timestamps + optional causally-later change; every scenario runs under every permutation of the sync order; pairs enumerated exhaustively, triples: mandatory same-value stratum + seeded random; evaluations = scenario x order runs; non-trivial = >=2 replicas changed something; distinct by (forms, timestamps, later)".into(),
+        rule: "scenario = common synced prefix + one concurrent suffix form per replica (14 forms: nothing, set p/q, remove p/q, delete, duplicate create of a second task, identical set, set to the empty string, delete+create(+set), set+delete, set+set, set+remove; timestamps in milliseconds incl. pairs inside one second) + timestamps + optional causally-later change; every scenario runs under every permutation of the sync order; pairs enumerated exhaustively, triples: mandatory same-value stratum + seeded random; evaluations = scenario x order runs; non-trivial = >=2 replicas changed something; distinct by (forms, timestamps, later)".into(),
         exhaustive: None,
         acc,
         assumptions: vec![
